@@ -613,6 +613,8 @@ KERNEL_GROUPS['KernelsLift'] = [
     ('exon.py', 'get_codon_range', 'kl_get_codon_range', None),
     ('exon.py', 'Exon.get_codon', 'k_exon_get_codon', 'exon'),
     ('exon.py', 'Exon.get_codon_at', 'k_exon_get_codon_at', 'exon'),
+    # the codon indices of the part of an exon a range covers (ascending, or descending along the genome on the minus strand)
+    ('exon.py', 'Exon.get_codon_indices', 'k_exon_get_codon_indices', 'exon'),
 ]
 KERNEL_GROUPS['KernelsGpo'] = [
     # the liftover tables of GenomicPositionOffsets: loops over the sorted variant statistics (for -> fold_m / fold_x)
@@ -709,7 +711,7 @@ KERNEL_GROUPS['KernelsDnaStr'] = [
 KERNEL_EXTRA_SOURCES = {'KernelsMave': ['enums.py'], 'KernelsNames': ['enums.py', 'constants.py'], 'KernelsLift': ['enums.py'], 'KernelsGpo': ['enums.py'], 'KernelsDnaStr': ['enums.py']}
 KERNEL_CONSTS = {'KernelsNames': ('REVCOMP_OLIGO_NAME_SUFFIX',)}
 KERNEL_IMPORTS = {'KernelsTargeton': ' Model.Targeton', 'KernelsMave': ' Model.Seq Model.Vcf Model.Mave Model.PyStr',
-                  'KernelsNames': ' Model.Seq Model.Vcf Model.Mave Model.PyStr', 'KernelsLift': ' Model.Seq Model.Vcf Model.Gpo',
+                  'KernelsNames': ' Model.Seq Model.Vcf Model.Mave Model.PyStr', 'KernelsLift': ' Model.Seq Model.Vcf Model.Gpo Model.PyLoop',
                   'KernelsGpo': ' Model.Seq Model.Vcf Model.Gpo Model.PyStr Model.PyLoop', 'KernelsExons': ' Model.PyLoop', 'KernelsCounts': ' Model.Unique Model.PyLoop',
                   'KernelsMetaRow': ' Model.Seq Model.Vcf Model.Mave Model.Gpo Model.ToCsv', 'KernelsDnaStr': ' Model.Seq Model.Vcf Model.Mave Model.PyStr Model.PyLoop'}
 
